@@ -981,6 +981,16 @@ pub async fn handle_connection(
                 }
             }
 
+            // On HTTP/1, a streamed body of unknown length (which isn't framed by the extension
+            // itself, using `transfer-encoding` or its own `content-length`) ends where the
+            // connection ends.
+            let close_delimited = response
+                .future
+                .as_ref()
+                .map_or(false, |(_, len)| len.is_none())
+                && !response.response.headers().contains_key("transfer-encoding")
+                && !response.response.headers().contains_key("content-length");
+
             if let Err(err) = SendKind::Send(response_pipe)
                 .send(response, &request, host, address)
                 .await
@@ -989,7 +999,7 @@ pub async fn handle_connection(
             }
             // On HTTP/1, the next request starts where the body of this one ends.
             // If the handler didn't read all of it, we have to.
-            let reusable = request.body_mut().drain().await.is_ok();
+            let reusable = request.body_mut().drain().await.is_ok() && !close_delimited;
             drop(request);
             reusable
         };
